@@ -25,7 +25,7 @@ BUDGET = {"quick": 12000, "thorough": 400000}
 @st.composite
 def _cases(draw):
     prof = dict(gen.PROFILES["i18n"], p_group_media=0.15, p_search=0.08, p_or_other=0.1, p_table_list=0.05, settings="some", p_group=0.2, p_repeat=0.15,
-                p_text_ref=0.15, p_plain_too=0.3, p_arg_default_language=0.3, p_choice_label_ref=0.1, p_extra_cols=0.2)
+                p_text_ref=0.15, p_plain_too=0.3, p_arg_default_language=0.3, p_choice_label_ref=0.1, p_extra_cols=0.2, p_prefixed_names=0.1)
     g = gen.G(draw, prof)
     form = gen.build_form(draw, prof, g=g)
     if g.p("_", 0.6):
